@@ -90,4 +90,9 @@ MODULES = {
         dict(py='CIAReader.__init__', coq='cia_content_iv', expr_of='iv', args=[('record_cindex', INT)], ret=SEQ,
              rename={'record.cindex': 'record_cindex'}),
     ]),
+    'romfs': dict(file='pyctr/type/romfs.py', imports=['util'], extfuncs={'roundup': ('roundup', [INT, INT], INT, False)}, kernels=[
+        dict(py='RomFSReader.__init__', coq='ivfc_block_size', expr_of='lv3_hash_block_size', args=[('lv3_block_size', INT)], ret=INT),
+        dict(py='RomFSReader.__init__', coq='ivfc_lv3_offset', expr_of='lv3_offset', aug_only=True,
+             args=[('lv3_offset', INT), ('master_hash_size', INT), ('lv3_hash_block_size', INT)], ret=INT),
+    ]),
 }
